@@ -196,5 +196,38 @@ package node
 //@ func (IfElse).byteCode [C05,C12] implements ByteCoder.byteCode
 //@   assumes[unfold] exprOK(i.Condition) && wfAST(i.TrueCase) && wfAST(i.FalseCase) && (dyntype(i.Condition) == typeid[UnOp]() ==> exprOK(i.Condition.(UnOp).Target))
 //
+//@ pred whileOK(w While) bool := exprOK(w.Condition) && wfAST(w.Body) && (dyntype(w.Condition) == typeid[UnOp]() ==> exprOK(w.Condition.(UnOp).Target))
+//@ func (While).byteCode [C05,C12] implements ByteCoder.byteCode
+//@   assumes[unfold] whileOK(w)
+//@ func discardingWhile [C05,C12]
+//@   requires[sel] 0 <= srcsel && srcsel <= 2
+//@   requires[ast] whileOK(w) && fl.Data().OpDepth == 0
+//@   requires[cr]  crOK(cr)
+//@   modifies *cr.CS, allelems(*cr.CS), *cr.DS, allelems(*cr.DS), mapof(*cr.Dbg)
+//@   ensures[K2_code] csKept(cr) && csNewWF(cr)
+//@   ensures[K2_data] dsKept(cr) && crOK(cr)
+//@   ensures[K1_desc] descOnly(result, srcsel) && bck(result, srcsel) == bytecode.AddrInv
+//@ func pushingWhile [C05,C12]
+//@   requires[sel] 0 <= srcsel && srcsel <= 2
+//@   requires[ast] whileOK(w) && fl.Data().OpDepth == 0 && !fl.Data().Discard
+//@   requires[cr]  crOK(cr)
+//@   modifies *cr.CS, allelems(*cr.CS), *cr.DS, allelems(*cr.DS), mapof(*cr.Dbg)
+//@   ensures[K2_code] csKept(cr) && csNewWF(cr)
+//@   ensures[K2_data] dsKept(cr) && crOK(cr)
+//@   ensures[K1_desc] descOnly(result, srcsel) && (bck(result, srcsel) == bytecode.AddrInv || bck(result, srcsel) == bytecode.AddrStck)
+//
+// Entry points: a statement compiled for its value leaves exactly one PUSH when its result is not
+// already on the stack; compiled for effect, one POP when it is.
+//@ func ByteCode [C05,C12]
+//@   requires[ast] wfAST(bc)
+//@   requires[cr]  crOK(cr)
+//@   modifies *cr.CS, allelems(*cr.CS), *cr.DS, allelems(*cr.DS), mapof(*cr.Dbg)
+//@   ensures[K2_code] csKept(cr) && csNewWF(cr) && dsKept(cr) && crOK(cr)
+//@ func ByteCodeNoStck [C05,C12]
+//@   requires[ast] wfAST(bc)
+//@   requires[cr]  crOK(cr)
+//@   modifies *cr.CS, allelems(*cr.CS), *cr.DS, allelems(*cr.DS), mapof(*cr.Dbg)
+//@   ensures[K2_code] csKept(cr) && csNewWF(cr) && dsKept(cr) && crOK(cr)
+//
 //@ canary func (Name).Name
 //@   ensures false
